@@ -217,7 +217,8 @@ def nb_pool_merge(W, cfg):
     W.require(good, 'C08:pool-merge-points-in-worker-order',
               '%d rows from %d workers' % (len(got), len(results)))
     # workers use distinct generator streams derived from the bound's rng
-    W.require(W.unseeded == 0, 'C11:no-unseeded-generator', '')
+    W.require(W.unseeded_draws == 0,
+                  'C11:no-draw-from-unseeded-generator', '')
 
 
 def neural_contains(W, cfg):
@@ -293,6 +294,13 @@ def mixture_compute(W, cfg):
         basic.Ellipsoid.compute = real_compute
     if not ok:
         return
+    W.require(W.unseeded_draws == 0, 'C11:no-draw-from-unseeded-generator',
+              '%d draws from generators created without a seed' %
+              W.unseeded_draws)
+    for part in (m.cube, m.ellipsoid):
+        if part is not None:
+            W.require(part.rng is rng, 'C11:bounds-share-the-given-generator',
+                      type(part).__name__)
     W.require(len(m.dim_cube) == d, 'C07:mixture-dim_cube-shape', '')
     n_cube = sum(1 for x in m.dim_cube if x)
     W.require((m.cube is None) == (n_cube == 0) and
@@ -307,3 +315,44 @@ def mixture_compute(W, cfg):
             W.require(c[j], 'C07:mixture-encloses-construction-points',
                       'point %d, dim_cube %s' % (j, [bool(x) for x in
                                                     m.dim_cube]))
+
+
+def union_compute_rng(W, cfg):
+    """Union.compute hands the given generator to the cube and to every
+    member, and creates none of its own (C11)"""
+    np = W.np
+    pkg = W.pkg
+    d, n = cfg['d'], cfg['n']
+    M = member_class(pkg)
+    M.new_path()
+    pts = sym_arr(W, 'cp', (n, d))
+    rng = StubRNG(stream=1, draws=0)
+    ok, U = call(W, 'C11:union-compute-no-raise',
+                 lambda: pkg.union.Union.compute(
+                     pts, n_points_min=d + 1, unit=cfg.get('unit', True),
+                     bound_class=M, rng=rng))
+    if not ok:
+        return
+    W.require(W.unseeded_draws == 0, 'C11:no-draw-from-unseeded-generator',
+              '%d draws from generators created without a seed' %
+              W.unseeded_draws)
+    W.require(U.rng is rng, 'C11:bounds-share-the-given-generator', 'union')
+    if U.cube is not None:
+        W.require(U.cube.rng is rng, 'C11:bounds-share-the-given-generator',
+                  'cube')
+    for b in U.bounds:
+        W.require(b.rng is rng, 'C11:bounds-share-the-given-generator',
+                  'member')
+    if len(pts) >= 2 * U.n_points_min:
+        limit(rng, 6)
+        ok, r = call(W, 'C11:union-split-no-raise', lambda: U.split())
+        if ok:
+            for b in U.bounds:
+                W.require(b.rng is rng,
+                          'C11:bounds-share-the-given-generator',
+                          'member after split')
+            W.require(W.unseeded_draws == 0,
+                  'C11:no-draw-from-unseeded-generator', '')
+            for rs in getattr(W, 'gmm_random_states', []):
+                W.require(rs is not None, 'C11:mixture-fit-is-seeded',
+                          'GaussianMixture(random_state=None)')
